@@ -117,6 +117,18 @@ pub open spec fn arg_link(op: OpcodeKind, arg_bytes: Option<&[u8]>, a: RefArg) -
     }
 }
 
+impl State {
+//@fn src/state.rs State::reset
+//@props C08 C01
+//@contract
+    ensures
+        !final(self).proto_emitted,
+        final(self).memo@ == Map::<usize, StackObjectRef>::empty(),
+        final(self).stack.view() == Seq::<Kind>::empty(),
+        final(self).version == old(self).version,
+//@endfn
+}
+
 impl Generator {
     pub open spec fn view(&self) -> Seq<Kind> { self.state.stack.view() }
 
@@ -394,6 +406,7 @@ impl Generator {
         res && opcode == OpcodeKind::BinPut ==> self.state.memo@.len() < 256, // @C02
         res ==> self.sim_pre(opcode), // @C17
         res ==> self.guard_ok(opcode, r),
+        opcode == OpcodeKind::None ==> res, // @C11 @C12
 //@arm SetItems
 //@prelude
         assert(self.view().len() == r.stack.len());
@@ -723,9 +736,23 @@ pub fn get_random_module(&self, source: &mut GenerationSource) -> (r: Result<VfT
 //@arm Int | Long | Long1 | Long4 | BinInt | BinInt1 | BinInt2
 //@assume
 //@arm Float
-//@assume
+//@subst format!("{}\n", value) => vf_fmt_f64_nl(value)
+//@rewrite R14 process_stack_ops self.process_stack_ops($ARGS, Ghost(r), Ghost(RefArg { idx: 0 }))
+//@before 1 Ok(())
+        proof {
+            let chunk = self.output@.subrange(old(self).output@.len() as int, self.output@.len() as int);
+            assert(self.output@ =~= old(self).output@ + chunk);
+            assert(self.emit_post(old(self), r, opcode, opcode, RefArg { idx: 0 }, chunk));
+        }
 //@arm BinFloat
-//@assume
+//@subst value.to_be_bytes() => vf_f64_to_be_bytes(value)
+//@rewrite R14 process_stack_ops self.process_stack_ops($ARGS, Ghost(r), Ghost(RefArg { idx: 0 }))
+//@before 1 Ok(())
+        proof {
+            let chunk = self.output@.subrange(old(self).output@.len() as int, self.output@.len() as int);
+            assert(self.output@ =~= old(self).output@ + chunk);
+            assert(self.emit_post(old(self), r, opcode, opcode, RefArg { idx: 0 }, chunk));
+        }
 //@arm String | Unicode | ShortBinUnicode | BinUnicode | BinUnicode8
 //@assume
 //@arm BinString | ShortBinString | ShortBinBytes | BinBytes | BinBytes8 | ByteArray8
@@ -827,15 +854,53 @@ pub fn get_random_module(&self, source: &mut GenerationSource) -> (r: Result<VfT
             assert(self.emit_post(old(self), r, opcode, opcode, RefArg { idx: gidx }, chunk));
         }
 //@arm Ext1
-//@assume
+//@subst source.gen_u8().saturating_add(1) => vf_sat_add_u8(source.gen_u8(), 1)
+//@subst debug_assert!(code >= 1, "EXT1 code out of range: {}", code) => assert(code >= 1)
+//@rewrite R14 process_stack_ops self.process_stack_ops($ARGS, Ghost(r), Ghost(RefArg { idx: 0 }))
+//@before 1 Ok(())
+        proof {
+            let chunk = self.output@.subrange(old(self).output@.len() as int, self.output@.len() as int);
+            assert(self.output@ =~= old(self).output@ + chunk);
+            assert(self.emit_post(old(self), r, opcode, opcode, RefArg { idx: 0 }, chunk));
+        }
 //@arm Ext2
-//@assume
+//@subst source.gen_u16().saturating_add(1) => vf_sat_add_u16(source.gen_u16(), 1)
+//@subst debug_assert!(code >= 1, "EXT2 code out of range: {}", code) => assert(code >= 1)
+//@substall code.to_le_bytes() => vf_u16_to_le_bytes(code)
+//@rewrite R14 process_stack_ops self.process_stack_ops($ARGS, Ghost(r), Ghost(RefArg { idx: 0 }))
+//@before 1 Ok(())
+        proof {
+            let chunk = self.output@.subrange(old(self).output@.len() as int, self.output@.len() as int);
+            assert(self.output@ =~= old(self).output@ + chunk);
+            assert(self.emit_post(old(self), r, opcode, opcode, RefArg { idx: 0 }, chunk));
+        }
 //@arm Ext4
-//@assume
+//@subst debug_assert!(code > 0, "EXT4 code must be > 0, got {}", code) => assert(0 < code <= 0x7fff_ffff)
+//@substall code.to_le_bytes() => vf_u32_to_le_bytes(code)
+//@rewrite R14 process_stack_ops self.process_stack_ops($ARGS, Ghost(r), Ghost(RefArg { idx: 0 }))
+//@before 1 Ok(())
+        proof {
+            let chunk = self.output@.subrange(old(self).output@.len() as int, self.output@.len() as int);
+            assert(self.output@ =~= old(self).output@ + chunk);
+            assert(self.emit_post(old(self), r, opcode, opcode, RefArg { idx: 0 }, chunk));
+        }
 //@arm PersID
-//@assume
+//@subst format!("pid_{}\n", source.gen_u32()) => vf_fmt_pid_nl(source.gen_u32())
+//@rewrite R14 process_stack_ops self.process_stack_ops($ARGS, Ghost(r), Ghost(RefArg { idx: 0 }))
+//@before 1 Ok(())
+        proof {
+            let chunk = self.output@.subrange(old(self).output@.len() as int, self.output@.len() as int);
+            assert(self.output@ =~= old(self).output@ + chunk);
+            assert(self.emit_post(old(self), r, opcode, opcode, RefArg { idx: 0 }, chunk));
+        }
 //@arm Inst
-//@assume
+//@rewrite R14 process_stack_ops self.process_stack_ops($ARGS, Ghost(r), Ghost(RefArg { idx: 0 }))
+//@before 1 Ok(())
+        proof {
+            let chunk = self.output@.subrange(old(self).output@.len() as int, self.output@.len() as int);
+            assert(self.output@ =~= old(self).output@ + chunk);
+            assert(self.emit_post(old(self), r, opcode, opcode, RefArg { idx: 0 }, chunk));
+        }
 //@arm Frame
 //@subst unreachable!("Frame should not be emitted during generation") => vf_unreachable()
 //@arm _
@@ -849,6 +914,214 @@ pub fn get_random_module(&self, source: &mut GenerationSource) -> (r: Result<VfT
             assert(contig(ref_step(opcode, a0, r)));
             assert(self.rel(ref_step(opcode, a0, r)));
             assert(self.emit_post(old(self), r, opcode, opcode, a0, seq![ref_code(opcode) as u8]));
+        }
+//@endfn
+
+//@fn src/generator/emission.rs Generator::emit_proto
+//@props C05 C06 C08
+//@subst self.state.version as u8 => vf_version_u8(self.state.version)
+//@contract
+    requires
+        old(self).output@.len() == 0,
+        !old(self).state.proto_emitted,
+    ensures
+        ver_num(old(self).state.version) >= 2 ==> final(self).output@ == seq![0x80u8, ver_num(old(self).state.version) as u8] && final(self).state.proto_emitted, // @C05
+        ver_num(old(self).state.version) < 2 ==> final(self).output@ == Seq::<u8>::empty() && !final(self).state.proto_emitted, // @C05
+        final(self).state.stack == old(self).state.stack,
+        final(self).state.memo == old(self).state.memo,
+        final(self).state.version == old(self).state.version,
+        final(self).same_config_but_proto(old(self)),
+//@endfn
+
+    pub open spec fn same_config_but_proto(&self, o: &Generator) -> bool {
+        &&& self.state.version == o.state.version
+        &&& self.seed == o.seed && self.bufsize == o.bufsize
+        &&& self.min_opcodes == o.min_opcodes && self.max_opcodes == o.max_opcodes
+        &&& self.mutators == o.mutators && self.mutation_rate == o.mutation_rate
+        &&& self.unsafe_mutations == o.unsafe_mutations
+        &&& self.allow_ext_opcodes == o.allow_ext_opcodes
+        &&& self.allow_buffer_opcodes == o.allow_buffer_opcodes
+    }
+
+//@fn src/generator/mod.rs Generator::reset
+//@props C08 C01 C05 C06
+//@contract
+    ensures
+        final(self).output@ == Seq::<u8>::empty(), // @C08
+        final(self).view() == Seq::<Kind>::empty(), // @C08
+        final(self).state.memo@ == Map::<usize, StackObjectRef>::empty(), // @C08
+        !final(self).state.proto_emitted, // @C08
+        final(self).same_config_but_proto(old(self)),
+//@endfn
+
+    pub open spec fn op_ok(&self, op: OpcodeKind) -> bool {
+        ref_proto(op) <= ver_num(self.state.version) && self.flags_ok(op)
+    }
+
+//@fn src/generator/validation.rs Generator::get_valid_opcodes
+//@ret res
+//@ghost Ghost(r): Ghost<RefState>
+//@props C01 C03 C05 C10 C11
+//@subst self.state.version as u8 => vf_version_u8(self.state.version)
+//@subst PICKLE_OPCODES.get(&version) => vf_pickle_opcodes(version)
+//@rewrite R15
+//@rewrite R14 can_emit self.can_emit($ARGS, Ghost(r))
+//@contract
+    requires
+        self.rel(r),
+    ensures
+        forall|i: int| 0 <= i < res@.len() ==> self.guard_ok(#[trigger] res@[i], r) && ref_proto(res@[i]) <= ver_num(self.state.version), // @C05 @C01
+        res@.len() > 0, // @C11
+//@loop 1
+            invariant
+                self.rel(r),
+                vf_i <= all_opcodes@.len(),
+                forall|i: int| 0 <= i < all_opcodes@.len() ==> ref_proto(#[trigger] all_opcodes@[i]) <= ver_num(self.state.version),
+                forall|i: int| 0 <= i < vf_out@.len() ==> self.guard_ok(#[trigger] vf_out@[i], r) && ref_proto(vf_out@[i]) <= ver_num(self.state.version),
+                forall|j: int| 0 <= j < vf_i && all_opcodes@[j] == OpcodeKind::None ==> vf_out@.len() > 0,
+            decreases all_opcodes@.len() - vf_i,
+//@endfn
+
+//@fn src/generator/validation.rs Generator::weighted_choice
+//@ret res
+//@props C01 C11
+//@contract
+    ensures
+        opcodes@.len() > 0 ==> opcodes@.contains(res),
+//@endfn
+
+    /// every body chunk is non-empty and starts with the byte of the opcode the trace records for it
+    pub open spec fn body_wf(chunks: Seq<Seq<u8>>, t: Trace) -> bool {
+        chunks.len() == t.len()
+        && forall|i: int| 0 <= i < chunks.len() ==> (#[trigger] chunks[i]).len() >= 1 && chunks[i][0] == ref_code(t[i].0) as u8
+    }
+
+    /// header bytes: PROTO v for protocol >= 2, nothing otherwise; then 9 reserved FRAME bytes if framed
+    pub open spec fn hdr_len(v: int, framed: bool) -> int {
+        (if v >= 2 { 2int } else { 0int }) + (if framed { 9int } else { 0int })
+    }
+
+    /// the statement proved about one generation call without unsafe mutations
+    pub open spec fn gen_post(&self, o: &Generator, out: Seq<u8>, nbody: int, framed: bool, t: Trace, tail: Trace, chunks: Seq<Seq<u8>>) -> bool {
+        let v = ver_num(o.state.version);
+        let a0 = RefArg { idx: 0 };
+        let h = Generator::hdr_len(v, framed);
+        &&& out == self.output@
+        // C01 C02 C03: the whole opcode sequence is accepted by the reference machine, STOP finds one object
+        &&& ref_run_ok(empty_state(), (t + tail).push((OpcodeKind::Stop, a0)))
+        // C05 C06 C10: every body opcode is in the protocol's vocabulary, respects the opt-in flags, is no FRAME/PROTO/STOP
+        &&& forall|i: int| 0 <= i < t.len() ==> o.op_ok(#[trigger] t[i].0)
+        &&& forall|i: int| 0 <= i < tail.len() ==> Generator::tail_op(#[trigger] tail[i].0, o.state.version)
+        // C11: opcode-count knobs
+        &&& t.len() == nbody && o.min_opcodes <= nbody
+        &&& (o.max_opcodes > o.min_opcodes ==> nbody < o.max_opcodes) && (o.max_opcodes <= o.min_opcodes ==> nbody == o.min_opcodes)
+        &&& tail.len() <= 2 * nbody + 1
+        // C05: header
+        &&& (v >= 2 ==> out.len() >= 2 && out[0] == 0x80 && out[1] == v)
+        // C06: FRAME only for protocol >= 4, directly after PROTO, spanning exactly the rest
+        &&& (framed ==> v >= 4 && out.len() >= 11 && out[2] == 0x95
+                && vstd::bytes::spec_u64_from_le_bytes(out.subrange(3, 11)) == out.len() - 11)
+        // layout: header, body chunks (one per body opcode), collapse tail, STOP  (C08: nothing of the old output survives)
+        &&& Generator::body_wf(chunks, t)
+        &&& out.len() >= h
+        &&& out.subrange(h, out.len() as int) == flat(chunks) + codes(tail) + seq![0x2eu8]
+        &&& self.same_config_but_proto(o)
+    }
+
+//@fn src/generator/core.rs Generator::generate_internal
+//@ret res
+//@props C01 C02 C03 C05 C06 C08 C09 C10 C11
+//@sigsubst Result<Vec<u8>> => Result<Vec<u8>, VfError>
+//@subst self.state.version >= Version::V4 => vf_version_ge(self.state.version, Version::V4)
+//@subst self.max_opcodes.saturating_sub(self.min_opcodes) => vf_sat_sub_usize(self.max_opcodes, self.min_opcodes)
+//@rewrite R16
+//@subst self.output.len().checked_sub(pos + 9).ok_or_else(|| { ... })? => vf_checked_sub_or_err(self.output.len(), pos + 9)?
+//@subst color_eyre::eyre::eyre!( ... ) => VfError { code: 2 }
+//@subst self.output[pos + 1..pos + 9].copy_from_slice(&(frame_size as u64).to_le_bytes()) => vf_copy_le_u64(&mut self.output, pos + 1, frame_size as u64)
+//@rewrite R14 get_valid_opcodes self.get_valid_opcodes(Ghost(gr))
+//@rewrite R14 emit_and_process self.emit_and_process($ARGS, Ghost(gr))
+//@rewrite R14 cleanup_for_stop self.cleanup_for_stop(Ghost(gr))
+//@rewrite R14 emit_opcode self.emit_opcode($ARGS, Ghost(gr2))
+//@contract
+    requires
+        !old(self).unsafe_mutations,
+        old(self).min_opcodes < 0x1_0000_0000 && old(self).max_opcodes < 0x1_0000_0000,
+    ensures
+        res is Ok, // @C09
+        res is Ok ==> res->Ok_0@ =~= final(self).output@, // @C08
+        exists|nbody: int, framed: bool, t: Trace, tail: Trace, chunks: Seq<Seq<u8>>|
+            #[trigger] final(self).gen_post(old(self), final(self).output@, nbody, framed, t, tail, chunks),
+//@prelude
+        let ghost mut gr: RefState = empty_state();
+        let ghost mut gtr: Trace = Seq::empty();
+        let ghost mut gch: Seq<Seq<u8>> = Seq::empty();
+        let ghost a0 = RefArg { idx: 0 };
+//@before 1 let mut vf_i: usize = 0;
+        let ghost hdr0 = self.output@;
+        let ghost h = Generator::hdr_len(ver_num(self.state.version), use_frame);
+        proof {
+            assert(self.output@ =~= hdr0 + flat(gch));
+            assert(self.state.memo@.len() == 0);
+        }
+//@loop 1
+            invariant
+                !self.unsafe_mutations, self.same_config_but_proto(old(self)),
+                ver_num(self.state.version) >= 2 ==> self.state.proto_emitted,
+                self.rel(gr), contig(gr),
+                gr == ref_run(empty_state(), gtr), ref_run_ok(empty_state(), gtr),
+                gtr.len() == vf_i, vf_i <= target_opcodes,
+                forall|i: int| 0 <= i < gtr.len() ==> old(self).op_ok(#[trigger] gtr[i].0),
+                Generator::body_wf(gch, gtr),
+                self.output@ == hdr0 + flat(gch), hdr0.len() == h,
+                gr.stack.len() <= gtr.len(), 0 <= gr.memo_len <= gtr.len(),
+                target_opcodes < 0x1_0000_0000,
+            ensures
+                gtr.len() == target_opcodes,
+            decreases target_opcodes - vf_i,
+//@after 1 let valid_ops = self.get_valid_opcodes(
+            let ghost vops = valid_ops@;
+//@after 1 let chosen = self.weighted_choice(
+            let ghost g0 = *self;
+            proof {
+                let i = choose|i: int| 0 <= i < vops.len() && vops[i] == chosen;
+                assert(self.guard_ok(vops[i], gr));
+            }
+//@after 1 self.emit_and_process(
+            proof {
+                let (op2, a, chunk) = choose|op2: OpcodeKind, a: RefArg, chunk: Seq<u8>| self.emit_post(&g0, gr, chosen, op2, a, chunk);
+                lemma_run_push(empty_state(), gtr, op2, a);
+                lemma_flat_push(gch, chunk);
+                lemma_step_growth(op2, a, gr);
+                assert(self.output@ =~= hdr0 + (flat(gch) + chunk));
+                gtr = gtr.push((op2, a));
+                gch = gch.push(chunk);
+                gr = ref_step(op2, a, gr);
+            }
+//@before 1 self.cleanup_for_stop(
+        let ghost g1 = *self;
+//@after 1 self.cleanup_for_stop(
+        let ghost tail = choose|t: Trace| self.cleanup_post(&g1, gr, t);
+        let ghost gr2 = ref_run(gr, tail);
+        proof {
+            lemma_run_concat(empty_state(), gtr, tail);
+            lemma_run_push(empty_state(), gtr + tail, OpcodeKind::Stop, a0);
+        }
+//@before 1 Ok(self.output.clone())
+        proof {
+            let out = self.output@;
+            let v = ver_num(old(self).state.version);
+            assert(ref_run_ok(empty_state(), (gtr + tail).push((OpcodeKind::Stop, a0))));
+            assert(forall|i: int| 0 <= i < gtr.len() ==> old(self).op_ok(#[trigger] gtr[i].0));
+            assert(forall|i: int| 0 <= i < tail.len() ==> Generator::tail_op(#[trigger] tail[i].0, old(self).state.version));
+            assert(gtr.len() == target_opcodes as int && old(self).min_opcodes <= target_opcodes);
+            assert(tail.len() <= 2 * target_opcodes + 1);
+            assert(v >= 2 ==> out.len() >= 2 && out[0] == 0x80 && out[1] == v);
+            assert(use_frame ==> v >= 4 && out.len() >= 11 && out[2] == 0x95);
+            assert(use_frame ==> vstd::bytes::spec_u64_from_le_bytes(out.subrange(3, 11)) == out.len() - 11);
+            assert(out.len() >= h);
+            assert(out.subrange(h, out.len() as int) =~= flat(gch) + codes(tail) + seq![0x2eu8]);
+            assert(self.same_config_but_proto(old(self)));
+            assert(self.gen_post(old(self), out, target_opcodes as int, use_frame, gtr, tail, gch));
         }
 //@endfn
 
